@@ -365,9 +365,9 @@ def FORM_TWINS():
 
 
 WORKLOADS = [
-    Workload("mzm", w_mzm, 3000, 120000),
+    Workload("mzm", w_mzm, 3000, 120000, budget=400),
     Workload("mzm_er", w_mzm_er, 400, 40000),
-    Workload("pm", w_pm, 2500, 100000),
+    Workload("pm", w_pm, 2500, 100000, budget=400),
     Workload("laser", w_laser, 600, 30000),
     Workload("laser_pm_power", w_laser_pm_power, 60, 3000),
     Workload("repo_tests", lambda ctx, rng, i: core.run_repo_tests(ctx), 1, 1, budget=1800, tiers=("thorough",)),
